@@ -843,15 +843,31 @@ func c09WorkerStreams(r *Run, rng *Rng) {
 		return
 	}
 	r.Stats["fn:functions"] = len(names)
+	only := os.Getenv("VH_C09_ONLY")
+	if only != "" {
+		keep := map[string]bool{}
+		for _, n := range strings.Split(only, ",") {
+			keep[n] = true
+		}
+		var sel []string
+		for _, n := range names {
+			if keep[n] {
+				sel = append(sel, n)
+			}
+		}
+		names = sel
+	}
 	jobs := c09Product(names, r.Tier, rng)
-	jobs = append(jobs, c09TxtJobs(r, rng, names)...)
+	if only == "" {
+		jobs = append(jobs, c09TxtJobs(r, rng, names)...)
+	}
 	// witnesses of open known findings are always part of the run
 	have := map[string]int{}
 	for i, j := range jobs {
 		have[j.Op] = i + 1
 	}
 	for _, k := range c09LoadKnown() {
-		if k.Status != "open" {
+		if k.Status != "open" || only != "" {
 			continue
 		}
 		if i := have[k.Replay]; i > 0 {
